@@ -2,6 +2,7 @@ package zzvrf
 
 import (
 	"bufio"
+	"bytes"
 	"errors"
 	"fmt"
 	"io"
@@ -344,6 +345,8 @@ type scanState struct {
 	pos  int
 	cur  string
 	done bool
+	max  int // maximum token size (bufio.MaxScanTokenSize unless Buffer was called)
+	err  error
 }
 
 var scanOf = map[*bufio.Scanner]*scanState{}
@@ -351,7 +354,7 @@ var scanOf = map[*bufio.Scanner]*scanState{}
 // ModelBufioNewScanner models bufio.NewScanner for readers whose bytes are visible (ByteSource).
 func ModelBufioNewScanner(r io.Reader) *bufio.Scanner {
 	sc := &bufio.Scanner{}
-	st := &scanState{}
+	st := &scanState{max: bufio.MaxScanTokenSize}
 	if bs, ok := r.(*ByteSource); ok {
 		st.data = bs.Data[bs.pos:]
 		bs.pos = len(bs.Data)
@@ -375,11 +378,26 @@ func ModelScannerScan(sc *bufio.Scanner) bool {
 		return false
 	}
 	end := st.pos
-	for end < n {
-		if st.data[end] == '\n' {
-			break
+	if n > 4096 {
+		// very long data (the long-line harness): one search instead of a byte loop
+		end = n
+		if i := bytes.IndexByte(st.data[st.pos:], '\n'); i >= 0 {
+			end = st.pos + i
 		}
-		end++
+	} else {
+		for end < n {
+			if st.data[end] == '\n' {
+				break
+			}
+			end++
+		}
+	}
+	// a line that does not fit the buffer (no newline within max bytes) ends the scan with
+	// ErrTooLong, as in the real Scanner
+	if end-st.pos >= st.max {
+		st.done = true
+		st.err = bufio.ErrTooLong
+		return false
 	}
 	// dropCR applies to terminated lines and to the final unterminated one alike
 	stop := end
@@ -400,8 +418,11 @@ func ModelScannerScan(sc *bufio.Scanner) bool {
 // ModelScannerText models Text.
 func ModelScannerText(sc *bufio.Scanner) string { return scanOf[sc].cur }
 
-// ModelScannerErr models Err (the 64 KiB token limit is outside the bounds explored).
-func ModelScannerErr(sc *bufio.Scanner) error { return nil }
+// ModelScannerErr models Err.
+func ModelScannerErr(sc *bufio.Scanner) error { return scanOf[sc].err }
+
+// ModelScannerBuffer models Buffer: only the maximum token size matters to the model.
+func ModelScannerBuffer(sc *bufio.Scanner, buf []byte, max int) { scanOf[sc].max = max }
 
 // ---- gates: harness-placed schedule choices ----
 // Gate(name) is a point where the calling goroutine may be held back (symbolic boolean input
